@@ -28,7 +28,8 @@ def seeds(corpus_dir, ops):
         s = suites.ref_format(v, b, True).encode()
         items = {0: [bytes([0, vi, 0]) + s, bytes([0, vi, 2]) + s[2:].lower()], 1: [bytes([1, vi, 0]) + b],
                  2: [bytes([2, vi, 0]) + b + b2, bytes([2, vi, 0]) + b + b],
-                 3: [bytes([3, vi, 30, 5]) + suites.gen_data(rng, 300), bytes([3, vi, 0x80, 2]) + suites.gen_data(rng, 700, 4)],
+                 3: [bytes([3, vi, 30, 5]) + suites.gen_data(rng, 300), bytes([3, vi, 0x80, 2]) + suites.gen_data(rng, 700, 4),
+                     bytes([3, vi, 0x20 | 16, 200]) + suites.gen_data(rng, 60), bytes([3, vi, 0x40 | 2, 255, 9]) + suites.gen_data(rng, 120)],
                  4: [bytes([4, vi, a]) + b + rng.bytes(suites.VARIANTS[v][4] + 6) for a in (0, 1, 2)],
                  5: [bytes([5, vi, 0]) + s + b"|" + suites.ref_format(v, b2, True).encode()],
                  6: [bytes([6, vi, 17]) + b], 7: [bytes([7, vi, 0]) + s, bytes([7, vi, 0]) + "T\u00e9".encode() + s[3:]]}
